@@ -29,6 +29,8 @@ KINDS = [
     ('boomt', 'boomt', [5]),       # a TypeError raised by the body itself (not by the call)
     ('push', 'push', [4]),         # a method of a stateful class based view registered without a context
 ]
+H_KINDS = [('vboom', 'vboom', None), ('valboom', 'valboom', None)]
+H_TABLE = dict(TABLE, vboom=dict(kind='internal', params=[]), valboom=dict(kind='internal', params=[]))
 INVALID_ELEMS = [1, {}, {'jsonrpc': '2.0', 'method': 1, 'id': 7}, {'jsonrpc': '2.0', 'method': 'ok', 'params': None, 'id': 8},
                  {'jsonrpc': '2.0', 'method': 'ok', 'params': 0}]
 ID_ALPHABET = [1, '1', 0, '', -1, '__absent__', None]
@@ -88,6 +90,17 @@ def gen_cases(ctx):
             doc = [elem(('t', 'ok', typed[t]), pos + 1) for pos, t in enumerate(seq)]
             for disp in DISPS[:4] + ['sync-pd', 'async-pd']:
                 yield dict(part='d', disp=disp, mbs=None, doc=doc)
+    # (h) requests whose handling fails BEFORE the method body (broken view constructor / validator, the -32603 path), as calls and
+    #     as notifications, next to ordinary elements
+    small_h = [(KINDS[0], 'call'), (KINDS[0], 'notif'), (H_KINDS[0], 'call'), (H_KINDS[0], 'notif'), (H_KINDS[1], 'call'), (H_KINDS[1], 'notif'), (KINDS[6], 'notif')]
+    for disp in DISPS:
+        for k, c in small_h[2:6]:
+            yield dict(part='h', disp=disp, mbs=None, doc=elem(k, 1 if c == 'call' else '__absent__'))
+        for n in range(1, 4):
+            for seq in itertools.product(small_h, repeat=n):
+                if not any(k in H_KINDS for k, c in seq):
+                    continue
+                yield dict(part='h', disp=disp, mbs=None, doc=[elem(k, pos + 1 if c == 'call' else '__absent__') for pos, (k, c) in enumerate(seq)])
     for disp in DISPS:
         for route in ('registry.add', 'registry.merge', 'dispatcher.add', 'dispatcher.add_methods'):
             yield dict(part='late', disp=disp, route=route)
@@ -181,6 +194,14 @@ def run_late(case, rec):
     return 'ok'
 
 
+def new_sys(case, disp, mbs):
+    s = Sys(disp, TABLE, max_batch_size=mbs)
+    if case['part'] == 'h':
+        from .c01 import register_internal_failures
+        register_internal_failures(s.d)
+    return s
+
+
 def run_case(case, rec):
     if case['part'] == 'late':
         return run_late(case, rec)
@@ -192,7 +213,7 @@ def run_case(case, rec):
         doc = case['doc']
     disp, mbs = case['disp'], case['mbs']
     text = json.dumps(doc)
-    s = Sys(disp, TABLE, max_batch_size=mbs)
+    s = new_sys(case, disp, mbs)
     o = observe(s, text)
     rec.transitions += 1
     rec.outcomes[outcome_class(o)] += 1
@@ -210,7 +231,7 @@ def run_case(case, rec):
                       expected='a response document or nothing', observed=o['raised'] or o['problem'])
         return obs_key(o)
 
-    alts = ref.expected(doc, TABLE, max_batch_size=mbs)
+    alts = ref.expected(doc, H_TABLE if case['part'] == 'h' else TABLE, max_batch_size=mbs)
     if 'deep' in case:
         # L5: a document nested deeper than the interpreter can parse may be refused as a whole (nothing executed)
         alts = alts + [(dict(id=None, code=c_, exact=None), []) for c_ in (-32700, -32600)]
@@ -233,7 +254,7 @@ def run_case(case, rec):
         rec.nontrivial_n += 1
         singles, calls = [], []
         for e in doc:
-            s1 = Sys(disp, TABLE)
+            s1 = new_sys(case, disp, None)
             o1 = observe(s1, json.dumps(e))
             rec.transitions += 1
             if o1['raised'] or o1['problem']:
